@@ -129,6 +129,15 @@ def command(draw, pkg):
 def plans(draw, enum_every=4, enum_cap=None):
     pkg = draw(package_spec())
     cmds = draw(st.lists(command(pkg), min_size=1, max_size=4))
+    follow = draw(st.integers(0, 5))
+    if follow >= 4:
+        # the classic history: a real run, then a DRY run with exactly the same options over the tree it left behind
+        base = dict(cmds[-1], dry=False, fault=None, restart=False)
+        if follow == 5:
+            base["emit"] = draw(st.sampled_from(("sqlalchemy_table", "sqlalchemy_hybrid")))
+            base["sa_sub"] = True
+        cmds[-1] = base
+        cmds.append(dict(base, dry=True))
     return {"pkg": pkg, "cmds": cmds, "out_exists": draw(st.sampled_from((False, False, True))),
             "black": draw(st.sampled_from((True, True, True, False))),
             "enum": draw(st.integers(0, enum_every - 1)) == enum_every - 1 if enum_every else False,
